@@ -27,6 +27,8 @@ func (p *Prog) SetKnown(known map[string]bool) {
 	p.BuildAliases()
 	p.known = known
 	p.transparent = map[*ssa.Function]bool{}
+	p.hofApplied = map[*ssa.Function]bool{}
+	siteCache = map[*ssa.Function][]*ssa.Call{}
 	p.allMod = p.ModFuncs
 	// static call sites and value uses per function
 	static := map[*ssa.Function]int{}
@@ -56,8 +58,15 @@ func (p *Prog) SetKnown(known map[string]bool) {
 				if f, ok := mc.Fn.(*ssa.Function); ok {
 					refs := Referrers(mc)
 					onlyCalled := len(refs) > 0
+					viaHOF := false
 					for _, r := range refs {
 						cl, isCall := r.(*ssa.Call)
+						if isCall {
+							if lf, lmc := hofLiteral(cl); lf == f && lmc == mc {
+								viaHOF = true
+								continue
+							}
+						}
 						if !isCall || cl.Call.Value != ssa.Value(mc) {
 							onlyCalled = false
 						}
@@ -65,6 +74,9 @@ func (p *Prog) SetKnown(known map[string]bool) {
 					if onlyCalled {
 						static[f] += len(refs)
 						immediate[f] = true
+						if viaHOF {
+							p.hofApplied[f] = true
+						}
 					} else {
 						valueUse[f] = true
 					}
@@ -117,7 +129,7 @@ func (p *Prog) SetKnown(known map[string]bool) {
 				return
 			}
 			if c, ok := in.(*ssa.Call); ok {
-				if f := c.Call.StaticCallee(); f != nil && cand[f] {
+				if f := EffCallee(c); f != nil && cand[f] {
 					if f == to || reaches(f, to, seen) {
 						found = true
 					}
@@ -292,7 +304,7 @@ func Instrs(fn *ssa.Function, f func(ssa.Instruction)) {
 					continue
 				}
 				if c, ok := in.(*ssa.Call); ok {
-					if callee := c.Call.StaticCallee(); callee != nil && callee != fn && deepProg.transparent[callee] {
+					if callee := EffCallee(c); callee != nil && callee != fn && deepProg.transparent[callee] {
 						rec(callee, d+1)
 					}
 				}
@@ -330,7 +342,7 @@ func dominatesDeep(a, b ssa.Instruction, d int) bool {
 		}
 		return true
 	}
-	if p.transparent[a.Parent()] {
+	if p.transparent[a.Parent()] && !p.hofApplied[a.Parent()] {
 		for _, r := range returnsOf(a.Parent()) {
 			if !dominatesLocal(a, r) {
 				return false
@@ -363,7 +375,7 @@ func (p *Prog) Anchors(fn *ssa.Function) []*ssa.Function {
 		for _, caller := range p.allMod {
 			calls := false
 			InstrsShallow(caller, func(in ssa.Instruction) {
-				if c, ok := in.(*ssa.Call); ok && c.Call.StaticCallee() == g {
+				if c, ok := in.(*ssa.Call); ok && EffCallee(c) == g {
 					calls = true
 				}
 			})
@@ -386,7 +398,7 @@ func (p *Prog) StaticCallSites(fn *ssa.Function) []*ssa.Call {
 	var out []*ssa.Call
 	for _, caller := range p.AllModFuncs() {
 		InstrsShallow(caller, func(in ssa.Instruction) {
-			if c, ok := in.(*ssa.Call); ok && c.Call.StaticCallee() == fn {
+			if c, ok := in.(*ssa.Call); ok && EffCallee(c) == fn {
 				out = append(out, c)
 			}
 		})
@@ -463,7 +475,12 @@ func returnsOf(fn *ssa.Function) []*ssa.Return {
 // the arguments at the helper's static call sites, the value of a helper call
 // for the results the helper returns. A value that is neither is returned
 // unchanged. (Depth-bounded; used by the provenance and identity rules.)
-func ResolveAll(v ssa.Value) []ssa.Value {
+func ResolveAll(v ssa.Value) []ssa.Value { return ResolveAllCtx(v, nil) }
+
+// ResolveAllCtx is ResolveAll for a value seen inside transparent helpers
+// entered through the given chain of calls (outermost first): a parameter of
+// the innermost helper stands for the argument of that very call.
+func ResolveAllCtx(v ssa.Value, stack []*ssa.Call) []ssa.Value {
 	p := deepProg
 	if p == nil {
 		return []ssa.Value{v}
@@ -498,14 +515,14 @@ func ResolveAll(v ssa.Value) []ssa.Value {
 				rec(b, d+1, nil)
 				return
 			}
-			if p.transparent[fn] {
+			if p.transparent[fn] && !p.hofApplied[fn] {
 				idx := -1
 				for i, q := range fn.Params {
 					if q == x {
 						idx = i
 					}
 				}
-				if via != nil && via.Call.StaticCallee() == fn && idx >= 0 && idx < len(via.Call.Args) {
+				if via != nil && EffCallee(via) == fn && !p.hofApplied[fn] && idx >= 0 && idx < len(via.Call.Args) {
 					rec(via.Call.Args[idx], d+1, ctx[:len(ctx)-1])
 					return
 				}
@@ -578,8 +595,30 @@ func ResolveAll(v ssa.Value) []ssa.Value {
 		}
 		out = append(out, v)
 	}
-	rec(v, 0, nil)
+	rec(v, 0, stack)
 	return out
+}
+
+// InstrsCtx is Instrs that also tells the callback through which chain of
+// helper calls (outermost first) the instruction is reached.
+func InstrsCtx(fn *ssa.Function, f func(in ssa.Instruction, stack []*ssa.Call)) {
+	var rec func(g *ssa.Function, stack []*ssa.Call)
+	rec = func(g *ssa.Function, stack []*ssa.Call) {
+		for _, b := range g.Blocks {
+			for _, in := range b.Instrs {
+				f(in, stack)
+				if deepProg == nil || len(stack) >= maxInlineDepth {
+					continue
+				}
+				if c, ok := in.(*ssa.Call); ok {
+					if callee := EffCallee(c); callee != nil && callee != fn && deepProg.transparent[callee] {
+						rec(callee, append(append([]*ssa.Call(nil), stack...), c))
+					}
+				}
+			}
+		}
+	}
+	rec(fn, nil)
 }
 
 // Resolve is ResolveAll when the resolution is unique (ignoring zero-value
@@ -825,3 +864,50 @@ func (p *Prog) ClosureFn(mc *ssa.MakeClosure) *ssa.Function {
 	}
 	return f
 }
+
+// Predicate higher-order functions of the standard library whose function
+// argument, when it is a function literal written at the call, is applied on
+// the spot to the elements of the first argument: the literal is a block of
+// the caller (like `func() {...}()`), run zero or more times.
+var predicateHOFs = map[string]int{ // callee (type arguments stripped) -> index of the function argument
+	"slices.ContainsFunc": 1,
+	"slices.IndexFunc":    1,
+}
+
+// hofLiteral: c applies a function literal through a predicate HOF; returns
+// the literal and its MakeClosure.
+func hofLiteral(c *ssa.Call) (*ssa.Function, *ssa.MakeClosure) {
+	callee := c.Call.StaticCallee()
+	if callee == nil {
+		return nil, nil
+	}
+	name := callee.String()
+	if o := callee.Origin(); o != nil {
+		name = o.String()
+	}
+	idx, ok := predicateHOFs[name]
+	if !ok || idx >= len(c.Call.Args) {
+		return nil, nil
+	}
+	mc, isMC := c.Call.Args[idx].(*ssa.MakeClosure)
+	if !isMC {
+		return nil, nil
+	}
+	f, _ := mc.Fn.(*ssa.Function)
+	if f == nil || f.Parent() == nil {
+		return nil, nil
+	}
+	return f, mc
+}
+
+// EffCallee is the function whose body runs at call c as far as the checker
+// is concerned: the static callee, or the literal a predicate HOF applies.
+func EffCallee(c *ssa.Call) *ssa.Function {
+	if f, _ := hofLiteral(c); f != nil {
+		return f
+	}
+	return c.Call.StaticCallee()
+}
+
+// AppliedByHOF reports whether fn is a literal applied through a predicate HOF.
+func (p *Prog) AppliedByHOF(fn *ssa.Function) bool { return p.hofApplied[fn] }
